@@ -4,7 +4,7 @@
 # rules report a violation. Usage: tools/seed_matrix.sh [seed-dir-name ...]
 set -u
 V=/verif
-ALL="C02 C03 C04 C05 C06 C07 C08 C09 C10 C11 C12 C13 C14 C15 C16 C17 C18 C19 C20"
+ALL="C01 C02 C03 C04 C05 C06 C07 C08 C09 C10 C11 C12 C13 C14 C15 C16 C17 C18 C19 C20"
 PROPS="${PROPS:-$ALL}"
 OUT=$(mktemp -d)
 seeds=("$@")
